@@ -15,6 +15,7 @@ Reading guide
 import EPV.Lemmas.SchemaTypingDrop
 import EPV.Lemmas.SchemaTypingValue
 import EPV.Lemmas.SchemaTypingLex
+import EPV.Lemmas.SchemaTypingContent
 namespace EPV.C20
 open EPV.Xsd EPV.Xsd.Spec EPV.Xsd.Sel
 
@@ -56,7 +57,7 @@ satisfiable on a schema with a local declaration, a wildcard, a global declarati
 and the walk types a tree with a cache hit (second `a`) -/
 def exSchema : Schema :=
   { ctypes := [⟨none, .elementOnly,
-                [.elem ⟨"a", .simple (.builtin .int), false, none⟩ [], .any none], []⟩],
+                [.elem ⟨"a", .simple (.builtin .int), false, none⟩ [], .any none false], []⟩],
     elements := [⟨"r", .complex 0, false, none⟩, ⟨"g", .simple (.builtin .boolean), false, none⟩],
     types := [] }
 def exTree : Forest Unit :=
@@ -67,6 +68,40 @@ def exTree : Forest Unit :=
           (.elem () "zz" [] .absent .nil .nil)))) .nil
 
 example : (applyFC exSchema none [] exTree).2.length = 3 := by decide
+
+/-! ## the flat content-model view -/
+
+/-- **occurrence constraints and sequence/choice structure do not matter for typing**: for any model
+group term (leaf particles with minOccurs/maxOccurs, nested sequences and choices), every child name
+of a sequence of children that is valid against it is accepted by a particle of the flat list
+`iter_elements()` that `apply_schema` scans — so the particle loop finds a particle for every child
+of a content-valid element, however often it repeats. -/
+theorem content_model_flat_view (s : Schema) (g : Group) (names : List String) (h : Accepts g names) :
+    ∀ n ∈ names, (∃ p ∈ flat g, p.matches n = true) ∧ findParticle s n (flat g) ≠ none :=
+  fun n hn => ⟨accepts_flat g names h n hn, valid_child_found s g names h n hn⟩
+
+/-- TEST: `(a{1,2}, (b | c)*)` accepts `a a c b` -/
+example :
+    let pa := Particle.elem ⟨"a", .simple (.builtin .int), false, none⟩ []
+    let pb := Particle.elem ⟨"b", .simple (.builtin .int), false, none⟩ []
+    let pc := Particle.elem ⟨"c", .simple (.builtin .int), false, none⟩ []
+    Accepts (.seq [.leaf pa 1 (some 2), .choice [.leaf pb 1 (some 1), .leaf pc 1 (some 1)] 0 none] 1 (some 1))
+      ["a", "a", "c", "b"] := by
+  intro pa pb pc
+  have hA : Accepts (.leaf pa 1 (some 2)) ["a", "a"] :=
+    .leaf _ _ _ _ ⟨by decide, by intro m hm; cases hm; decide⟩ (by intro n hn; simp at hn; subst hn; decide)
+  have hC : Accepts (.choice [.leaf pb 1 (some 1), .leaf pc 1 (some 1)] 0 none) [["c"], ["b"]].flatten :=
+    .choice _ _ _ [["c"], ["b"]] ⟨by decide, by intro m hm; cases hm⟩ (by
+      intro part hp
+      simp at hp
+      rcases hp with rfl | rfl
+      · exact .there _ _ _ (.here _ _ _ (.leaf _ _ _ _ ⟨by decide, by intro m hm; cases hm; decide⟩
+          (by intro n hn; simp at hn; subst hn; decide)))
+      · exact .here _ _ _ (.leaf _ _ _ _ ⟨by decide, by intro m hm; cases hm; decide⟩
+          (by intro n hn; simp at hn; subst hn; decide)))
+  have hS := AcceptsSeq.cons _ _ _ _ hA (AcceptsSeq.cons _ _ _ _ hC AcceptsSeq.nil)
+  exact .seq _ 1 (some 1) [["a", "a", "c", "b"]] ⟨by decide, by intro m hm; cases hm; decide⟩
+    (by intro part hp; simp at hp; subst hp; simpa using hS)
 
 /-! ## the proxy carries no typing state of its own -/
 
@@ -125,6 +160,53 @@ example : anyTypeAll exTree ≠ applySchema exSchema exTree := by
     | _ => false) h
   revert this
   decide
+
+/-! ## repeated application on one node tree -/
+
+theorem erase_clearF (t : Forest Unit) : (clearF t).erase = t := by
+  simp only [clearF, Forest.erase, map_map]; exact map_unit_id t
+
+theorem erase_applySchemaV (fv : Bool) (s : Schema) (t : Forest Unit) : (applySchemaV fv s t).erase = t := by
+  unfold applySchemaV
+  split
+  · exact apply_schema_keeps_tree s t
+  · simp only [anyTypeAll, Forest.erase, map_map]; exact map_unit_id t
+
+theorem erase_erase (a : Forest Ann) : (a.erase).erase = a.erase := map_unit_id _
+
+theorem rootTyped_clearF (t : Forest Unit) : rootTyped (clearF t) = false := by
+  cases t <;> rfl
+
+/-- **`apply_schema` is idempotent**: applying the same proxy again to an already processed node
+tree changes nothing — whether the early return fires (root typed) or the walk runs again (root
+without declaration). -/
+theorem apply_schema_idempotent (pid : Nat) (fv : Bool) (s : Schema) (st : TreeState) :
+    applySchemaOp pid fv s (applySchemaOp pid fv s st) = applySchemaOp pid fv s st := by
+  unfold applySchemaOp
+  by_cases h : (st.schema == some pid && rootTyped st.ann) = true
+  · simp [h]
+  · simp only [h, Bool.false_eq_true, if_false, beq_self_eq_true, Bool.true_and, erase_applySchemaV]
+    split <;> rfl
+
+/-- **a new context over an existing node tree types it exactly like a fresh tree** (fix F20l):
+the `schema` setter (`clear_types(); apply_schema(proxy)`) yields the typing of the plain tree, from
+ANY previous state of the node tree — typed by the same proxy, by another one, or cleared. -/
+theorem context_reuse_eq_fresh (pid : Nat) (fv : Bool) (s : Schema) (st : TreeState) :
+    setSchema pid fv s st = ⟨some pid, applySchemaV fv s st.ann.erase⟩ := by
+  simp [setSchema, applySchemaOp, clearTypes, rootTyped_clearF, erase_clearF, erase_erase]
+
+/-- corollary: a second context over the same tree with the same proxy keeps all types -/
+theorem context_reuse_idempotent (pid : Nat) (fv : Bool) (s : Schema) (st : TreeState) :
+    setSchema pid fv s (setSchema pid fv s st) = setSchema pid fv s st := by
+  rw [context_reuse_eq_fresh, context_reuse_eq_fresh]
+  simp [erase_applySchemaV]
+
+/-- F20l on the pinned tree, kernel-checked: with the early return that does not look at the root's
+type, the second context over the same tree and proxy leaves the root untyped -/
+theorem context_reuse_pinned_untypes :
+    let st1 := applySchemaOpPinned 7 true exSchema (clearTypes (TreeState.init exTree))
+    let st2 := applySchemaOpPinned 7 true exSchema (clearTypes st1)
+    rootTyped st1.ann = true ∧ rootTyped st2.ann = false := by decide
 
 /-! ## attribute typing -/
 
@@ -210,116 +292,18 @@ theorem typed_value_class (T : SType) (txt : String) (vs : List Atom)
     (h : atomicSequence T txt = .ok vs) : ∀ a ∈ vs, ∃ b ∈ T.protos, a.cls = classOf b :=
   atomicSequence_cls h
 
-/-- **typed values of an atomic type are instances of the declared type's primitive** — for every
-chain of restrictions over a builtin `b`, every text. -/
+/-- **typed values of an atomic type are instances of the declared type's nearest builtin and of
+all its base types** — for every builtin and every chain of restrictions over a builtin `b`
+(named or anonymous), every text.  (Full strength since fix F20c; on the pinned tree the value
+was an instance of the primitive only.) -/
 theorem typed_value_instance_of (T : SType) (b : B) (hT : atomicBase? T = some b)
     (hb : b.isSpecial = false) (txt : String) (vs : List Atom)
-    (h : atomicSequence T txt = .ok vs) : ∀ a ∈ vs, a.instanceOf b.primitive = true := by
-  intro a ha
-  obtain ⟨p, hp, hc⟩ := atomicSequence_cls h a ha
-  have hprim : b.primitive.isSpecial = false := by cases b <;> simp_all [B.isSpecial] <;> decide
-  unfold Atom.instanceOf
-  rcases protos_atomic hT with h1 | h1 <;> rw [h1] at hp <;> simp only [List.mem_singleton] at hp <;> subst hp
-  · rw [hc, classOf, hb]; exact derives_primitive p
-  · rw [hc, classOf, hprim]; exact derives_refl _
-
-/-- the same for a list of an atomic item type: every item is an instance of the item type's primitive -/
-theorem typed_value_list_instance_of (n : Option String) (item : SType) (b : B)
-    (hT : atomicBase? item = some b) (hb : b.isSpecial = false) (txt : String) (vs : List Atom)
-    (h : atomicSequence (.list n item) txt = .ok vs) : ∀ a ∈ vs, a.instanceOf b.primitive = true := by
-  intro a ha
-  obtain ⟨p, hp, hc⟩ := atomicSequence_cls h a ha
-  have hprim : b.primitive.isSpecial = false := by cases b <;> simp_all [B.isSpecial] <;> decide
-  rw [protos_list_atomic hT] at hp
-  simp only [List.mem_singleton] at hp; subst hp
-  unfold Atom.instanceOf
-  rw [hc, classOf, hprim]; exact derives_refl _
-
-/-! ### decidable trigger predicates of the findings (computed by the driver as flags) -/
-
-/-- the builtin at the bottom of an atomic type or of the item type of a list -/
-def itemBase? : SType → Option B
-  | .builtin b => some b
-  | .restr _ base _ => itemBase? base
-  | .list _ item => itemBase? item
-  | .union _ _ => none
-
-theorem itemBase_of_atomic : ∀ {T : SType} {b : B}, atomicBase? T = some b → itemBase? T = some b
-  | .builtin _, _, h => by simpa [atomicBase?, itemBase?] using h
-  | .restr _ base _, _, h => by
-    simp only [atomicBase?] at h; simp only [itemBase?]; exact itemBase_of_atomic h
-  | .list _ _, _, h => by simp [atomicBase?] at h
-  | .union _ _, _, h => by simp [atomicBase?] at h
-
-/-- trigger of finding F20c: the type is user-defined (its name is not a builtin's) and the
-nearest builtin of the type / of its list item type is not primitive, so the prototype of the
-primitive root type (`xsd_type.root_type`) is used instead of the builtin's own class -/
-def derivedViaPrimitive (T : SType) : Bool :=
-  match T with
-  | .builtin _ => false
-  | _ => match itemBase? T with
-    | some b => b.primitive != b
-    | none => false
-
-mutual
-/-- a union member that `_iter_values` skips: not a builtin and not itself a union -/
-def skippedMember : SType → Bool
-  | .builtin _ => false
-  | .union _ ms => skippedAny ms
-  | .restr _ _ _ => true
-  | .list _ _ => true
-def skippedAny : List SType → Bool
-  | [] => false
-  | m :: ms => skippedMember m || skippedAny ms
-end
-
-/-- trigger of finding F20h: the root type is a union with a member that is skipped -/
-def unionMemberSkipped (T : SType) : Bool :=
-  match T with
-  | .builtin _ => false
-  | _ => match T.rootType with
-    | .union _ ms => skippedAny ms
-    | _ => false
-
-/-- trigger of finding F20g: a list whose item type is a union, and the first prototype does not
-decode every item (so a later prototype is tried on the whole list) -/
-def listOfUnionMixed (T : SType) (text : String) : Bool :=
-  T.isList && (match T.rootType with | .union _ _ => true | _ => false) &&
-  (match T.protos with
-   | p :: _ => !(tryProto true text p []).2
-   | [] => false)
-
-/-- the Python constructor of prototype `b` accepts `s` although `s` is not in the XSD lexical space -/
-def pyOnly (b : B) (s : String) : Bool := (pyDecode b s).isSome && (xsdLex b (normalize b s)).isNone
-
-/-- trigger of finding F20i: some prototype accepts a Python-only lexical form of the text / an item -/
-def pyOnlyLexical (T : SType) (text : String) : Bool :=
-  T.protos.any fun b => (if T.isList then splitWs text else [text]).any (pyOnly b)
-
-/-- PARTIAL (known finding F20c).  Full statement — "the typed value of an element/attribute of
-atomic type `T` is an instance of `T`'s nearest builtin `b` and therefore of every base type of `T`"
-— is false on the pinned tree for user-defined restrictions of non-primitive builtins
-(`typed_value_instance_of_fails`).  It holds whenever `derivedViaPrimitive T = false`. -/
-theorem typed_value_instance_of_declared_partial (T : SType) (b : B) (hT : atomicBase? T = some b)
-    (hb : b.isSpecial = false) (hk : derivedViaPrimitive T = false) (txt : String) (vs : List Atom)
     (h : atomicSequence T txt = .ok vs) :
     ∀ a ∈ vs, a.cls = b ∧ ∀ B' ∈ builtinAncestors T, a.instanceOf B' = true := by
   intro a ha
   obtain ⟨p, hp, hc⟩ := atomicSequence_cls h a ha
-  have hpb : p = b := by
-    cases T with
-    | builtin b' =>
-      simp [atomicBase?] at hT; subst hT
-      simpa [SType.protos] using hp
-    | restr n base f =>
-      simp only [derivedViaPrimitive, itemBase_of_atomic hT] at hk
-      have hbp : b.primitive = b := by simpa using hk
-      rcases protos_atomic hT with h1 | h1 <;> rw [h1] at hp <;> simp only [List.mem_singleton] at hp
-      · exact hp
-      · rw [hp, hbp]
-    | list n i => simp [atomicBase?] at hT
-    | union n ms => simp [atomicBase?] at hT
-  subst hpb
+  rw [protos_atomic hT] at hp
+  simp only [List.mem_singleton] at hp; subst hp
   have hcls : a.cls = p := by rw [hc, classOf, hb]; rfl
   refine ⟨hcls, ?_⟩
   intro B' hB'
@@ -328,19 +312,77 @@ theorem typed_value_instance_of_declared_partial (T : SType) (b : B) (hT : atomi
   simp only [builtinAncestors, nearestB_atomic hT] at hB'
   simpa [B.derives] using hB'
 
-/-- F20c, kernel-checked: `myint` = restriction of `xs:int`; text `5` is decoded to an
-`xs:decimal` value, which is not an instance of `xs:int`, while the specification value is an `xs:int` -/
-theorem typed_value_instance_of_fails :
-    let myint : SType := .restr (some "{urn:t}myint") (.builtin .int) {}
-    atomicSequence myint "5" = .ok [⟨.decimal, "5"⟩] ∧
-    decode myint "5" = some [⟨.int, "5"⟩] ∧
-    (⟨.decimal, "5"⟩ : Atom).instanceOf .int = false ∧ derivedViaPrimitive myint = true := by decide
+/-- the same for a list (named or not) of an atomic item type: every item is an instance of the
+item type's nearest builtin and of its base types -/
+theorem typed_value_list_instance_of (n : Option String) (item : SType) (b : B)
+    (hT : atomicBase? item = some b) (hb : b.isSpecial = false) (txt : String) (vs : List Atom)
+    (h : atomicSequence (.list n item) txt = .ok vs) :
+    ∀ a ∈ vs, a.cls = b ∧ ∀ B' ∈ builtinAncestors item, a.instanceOf B' = true := by
+  intro a ha
+  obtain ⟨p, hp, hc⟩ := atomicSequence_cls h a ha
+  rw [protos_list_atomic hT] at hp
+  simp only [List.mem_singleton] at hp; subst hp
+  have hcls : a.cls = p := by rw [hc, classOf, hb]; rfl
+  refine ⟨hcls, ?_⟩
+  intro B' hB'
+  unfold Atom.instanceOf
+  rw [hcls]
+  simp only [builtinAncestors, nearestB_atomic hT] at hB'
+  simpa [B.derives] using hB'
 
-/-- F20c for lists: a list of `xs:int` is decoded to `xs:decimal` items -/
-theorem typed_value_list_fails :
-    let ilist : SType := .list (some "{urn:t}ilist") (.builtin .int)
-    atomicSequence ilist "1 2" = .ok [⟨.decimal, "1"⟩, ⟨.decimal, "2"⟩] ∧
-    decode ilist "1 2" = some [⟨.int, "1"⟩, ⟨.int, "2"⟩] := by decide
+/-! ### decidable trigger predicates of the findings (computed by the driver as flags) -/
+
+mutual
+/-- a union member that `_iter_values` skips: a list (or a restriction of one) -/
+def skippedMember : SType → Bool
+  | .builtin _ => false
+  | .union _ ms => skippedAny ms
+  | .restr _ base _ => skippedMember base
+  | .list _ _ => true
+def skippedAny : List SType → Bool
+  | [] => false
+  | m :: ms => skippedMember m || skippedAny ms
+end
+
+/-- trigger of finding F20h: the type (or the item type of the list) is a union with a member that
+is a list -/
+def unionMemberSkipped : SType → Bool
+  | .builtin _ => false
+  | .restr _ base _ => unionMemberSkipped base
+  | .list _ item => unionMemberSkipped item
+  | .union _ ms => skippedAny ms
+
+/-- trigger of finding F20g: a list decoded with more than one prototype (its item type is a
+union), and the first prototype does not decode every item -/
+def listOfUnionMixed (T : SType) (text : String) : Bool :=
+  T.isList &&
+  (match T.protos with
+   | p :: _ :: _ => !(tryProto true text p []).2
+   | _ => false)
+
+/-- the Python constructor of prototype `b` accepts `s` although `s` is not in the XSD lexical space -/
+def pyOnly (b : B) (s : String) : Bool := (pyDecode b s).isSome && (xsdLex b (normalize b s)).isNone
+
+/-- trigger of finding F20i: some prototype accepts a Python-only lexical form of the text / an item -/
+def pyOnlyLexical (T : SType) (text : String) : Bool :=
+  T.protos.any fun b => (if T.isList then splitWs text else [text]).any (pyOnly b)
+
+mutual
+/-- the type with every facet removed -/
+def stripFacets : SType → SType
+  | .builtin b => .builtin b
+  | .restr n base _ => .restr n (stripFacets base) {}
+  | .list n item => .list n (stripFacets item)
+  | .union n ms => .union n (stripFacetsL ms)
+def stripFacetsL : List SType → List SType
+  | [] => []
+  | m :: ms => stripFacets m :: stripFacetsL ms
+end
+
+/-- trigger of finding F20j: the facets of a restricted union member decide the member selection for
+this text (the prototypes know the builtin class only, not the facets) -/
+def facetDecides (T : SType) (text : String) : Bool :=
+  T.protos.length > 1 && decode T text != decode (stripFacets T) text
 
 /-- F20g, kernel-checked: a list of a union keeps the items yielded before a failing item of an
 earlier prototype (`1 true zz` → six atoms; specification: three) -/
@@ -348,14 +390,31 @@ theorem typed_value_list_of_union_fails :
     let u : SType := .union none [.builtin .int, .builtin .boolean, .builtin .string]
     atomicSequence (.list none u) "1 true zz" =
       .ok [⟨.int, "1"⟩, ⟨.boolean, "true"⟩, ⟨.boolean, "true"⟩, ⟨.string, "1"⟩, ⟨.string, "true"⟩, ⟨.string, "zz"⟩] ∧
-    decode (.list none u) "1 true zz" = some [⟨.int, "1"⟩, ⟨.boolean, "true"⟩, ⟨.string, "zz"⟩] := by decide
+    decode (.list none u) "1 true zz" = some [⟨.int, "1"⟩, ⟨.boolean, "true"⟩, ⟨.string, "zz"⟩] ∧
+    listOfUnionMixed (.list none u) "1 true zz" = true := by decide
 
-/-- F20h, kernel-checked: a union member that is a user-defined restriction is skipped by
-`iter_atomic_values`, so `7` in `union(myint, xs:string)` is decoded as a string -/
+/-- F20h, kernel-checked: a union member that is a list is skipped by `iter_atomic_values`, so
+`1 2` in `union(list of xs:int, xs:string)` is decoded as one string -/
 theorem typed_value_union_member_skipped :
+    let u : SType := .union none [.list none (.builtin .int), .builtin .string]
+    atomicSequence u "1 2" = .ok [⟨.string, "1 2"⟩] ∧ decode u "1 2" = some [⟨.int, "1"⟩, ⟨.int, "2"⟩] ∧
+    unionMemberSkipped u = true := by decide
+
+/-- F20j, kernel-checked: `300` in `union(restriction of xs:int with maxInclusive 100, xs:string)` is
+decoded by the `xs:int` prototype although the first member rejects it -/
+theorem typed_value_facets_ignored :
+    let m : SType := .restr (some "{urn:t}myint") (.builtin .int) { maxInc := some 100 }
+    let u : SType := .union none [m, .builtin .string]
+    atomicSequence u "300" = .ok [⟨.int, "300"⟩] ∧ decode u "300" = some [⟨.string, "300"⟩] ∧
+    facetDecides u "300" = true := by decide
+
+/-- the fixed F20c, kernel-checked: `myint` = restriction of `xs:int`, `ilist` = list of `xs:int`:
+model and specification agree (the pinned tree gave `xs:decimal` values) -/
+theorem derived_types_decoded_by_nearest_builtin :
     let myint : SType := .restr (some "{urn:t}myint") (.builtin .int) {}
-    let u : SType := .union none [myint, .builtin .string]
-    atomicSequence u "7" = .ok [⟨.string, "7"⟩] ∧ decode u "7" = some [⟨.int, "7"⟩] := by decide
+    atomicSequence myint "5" = .ok [⟨.int, "5"⟩] ∧ decode myint "5" = some [⟨.int, "5"⟩] ∧
+    atomicSequence (.list (some "{urn:t}ilist") myint) "1 2" = .ok [⟨.int, "1"⟩, ⟨.int, "2"⟩] ∧
+    atomicSequence (.union none [myint, .builtin .string]) "7" = .ok [⟨.int, "7"⟩] := by decide
 
 /-- the fixed F20a: `false` and `0` decode to `false` (the pinned tree's `bool(text)` gave `true`),
 and the model agrees with the specification on all four boolean lexicals with surrounding space -/
@@ -363,6 +422,8 @@ theorem boolean_decoding :
     ["true", "false", "1", "0", " false "].map (fun t => atomicSequence (.builtin .boolean) t) =
       ["true", "false", "1", "0", " false "].map (fun t => match decode (.builtin .boolean) t with
         | some v => TV.ok v | none => .err) := by decide
+
+/-! ### value level: the decoder against the XSD lexical mappings -/
 
 theorem decode_atomic : ∀ {T : SType} {b : B} {s : String} {vs : List Atom},
     atomicBase? T = some b → decode T s = some vs →
@@ -394,35 +455,138 @@ theorem isList_atomic : ∀ {T : SType} {b : B}, atomicBase? T = some b → T.is
   | .list _ _, _, h => by simp [atomicBase?] at h
   | .union _ _, _, h => by simp [atomicBase?] at h
 
-/-- **typed value = specification value** — PARTIAL (F20c; whitespace shape).
-For every atomic type `T` (a builtin or any chain of restrictions) outside the trigger of F20c and
-every text that is at most one token with optional surrounding white space (the shape of every
-valid literal of a non-string type): if the text is a valid literal with value `vs` by the XSD
-lexical mapping (`Spec.decode`, facets included), `get_atomic_sequence` yields exactly `vs` — same
-class, same value.  The full statement (all simple types, all valid texts) is false (F20c/g/h/i)
-and, for multi-token string literals, not proved in Lean (checked by the correspondence). -/
-theorem typed_value_eq_spec_partial (T : SType) (b : B) (hT : atomicBase? T = some b)
-    (hk : derivedViaPrimitive T = false) (s : String) (h1 : (splitWs s).length ≤ 1)
+/-- **typed value = specification value, atomic types.**  For every atomic type `T` (a builtin or any
+chain of restrictions, facets included) and every text that is at most one token with optional
+surrounding white space (the shape of every valid literal of a non-string type): if the text is a
+valid literal with value `vs` by the XSD lexical mapping (`Spec.decode`), `get_atomic_sequence`
+yields exactly `vs` — same class, same value. -/
+theorem typed_value_eq_spec (T : SType) (b : B) (hT : atomicBase? T = some b)
+    (s : String) (h1 : (splitWs s).length ≤ 1)
     (vs : List Atom) (h : decode T s = some vs) : atomicSequence T s = .ok vs := by
   obtain ⟨a, rfl, ha⟩ := decode_atomic hT h
   have hpy := pyDecode_of_xsdLex b s h1 a ha
-  have hprotos : T.protos = [b] := by
-    cases T with
-    | builtin b' => simp [atomicBase?] at hT; subst hT; rfl
-    | restr n base f =>
-      simp only [derivedViaPrimitive, itemBase_of_atomic hT] at hk
-      have hbp : b.primitive = b := by simpa using hk
-      rcases protos_atomic hT with h1 | h1
-      · exact h1
-      · rw [h1, hbp]
-    | list n i => simp [atomicBase?] at hT
-    | union n ms => simp [atomicBase?] at hT
-  simp [atomicSequence, hprotos, isList_atomic hT, atomicLoop, tryProto, hpy]
+  simp [atomicSequence, protos_atomic hT, isList_atomic hT, atomicLoop, tryProto, hpy]
 
-/-- TEST: the hypotheses of `typed_value_eq_spec_partial` hold on a restricted decimal with facets
-and surrounding white space -/
+/-- the item loop of `get_atomic_sequence` on a list whose items are all valid -/
+theorem tryItems_valid (item : SType) (b : B) (hT : atomicBase? item = some b) :
+    ∀ (toks : List String), (∀ w ∈ toks, (splitWs w).length ≤ 1) →
+    ∀ (acc vs : List Atom), decodeItems (decode item) toks = some vs →
+      tryItems b toks (acc, true) = (acc ++ vs, true)
+  | [], _, acc, vs, h => by simp [decodeItems] at h; subst h; simp [tryItems]
+  | w :: ws, htok, acc, vs, h => by
+    simp only [decodeItems] at h
+    cases hw : decode item w with
+    | none => rw [hw] at h; simp at h
+    | some aw =>
+      cases hr : decodeItems (decode item) ws with
+      | none => rw [hw, hr] at h; simp at h
+      | some r =>
+        rw [hw, hr] at h
+        simp only [Option.some.injEq] at h
+        subst h
+        obtain ⟨a, rfl, ha⟩ := decode_atomic hT hw
+        have hpy := pyDecode_of_xsdLex b w (htok w List.mem_cons_self) a ha
+        have ih := tryItems_valid item b hT ws (fun x hx => htok x (List.mem_cons_of_mem _ hx)) (acc ++ [a]) r hr
+        unfold tryItems at ih ⊢
+        simp only [List.foldl_cons, if_true, hpy]
+        rw [ih]
+        simp
+
+/-- **typed value = specification value, list types.**  For every list (named or not) of an atomic
+item type and EVERY text: if all items are valid literals of the item type (split on XSD white
+space, each item decoded by the item type's lexical mapping, facets included) with values `vs`,
+`get_atomic_sequence` yields exactly `vs`. -/
+theorem typed_value_eq_spec_list (n : Option String) (item : SType) (b : B)
+    (hT : atomicBase? item = some b) (s : String) (vs : List Atom)
+    (h : decode (.list n item) s = some vs) : atomicSequence (.list n item) s = .ok vs := by
+  simp only [decode] at h
+  have hitems := tryItems_valid item b hT (splitWs s) (fun w hw => token_single s w hw) [] vs h
+  simp only [atomicSequence, protos_list_atomic hT, SType.isList, atomicLoop, tryProto, if_true]
+  rw [hitems]
+  simp
+
+/-- all members are builtins -/
+def builtinMembers : List SType → Option (List B)
+  | [] => some []
+  | .builtin b :: ms => (builtinMembers ms).map (b :: ·)
+  | _ :: _ => none
+
+theorem iterValuesL_builtins : ∀ {ms : List SType} {bs : List B}, builtinMembers ms = some bs →
+    SType.iterValuesL 2 ms = bs
+  | [], bs, h => by simp [builtinMembers] at h; subst h; rfl
+  | .builtin b :: ms, bs, h => by
+    simp only [builtinMembers, Option.map_eq_some_iff] at h
+    obtain ⟨bs', hb, rfl⟩ := h
+    simp [SType.iterValuesL, SType.iterValues, iterValuesL_builtins hb]
+  | .restr _ _ _ :: _, _, h => by simp [builtinMembers] at h
+  | .list _ _ :: _, _, h => by simp [builtinMembers] at h
+  | .union _ _ :: _, _, h => by simp [builtinMembers] at h
+
+/-- the prototype loop on a union of builtins: the first member whose lexical mapping accepts the
+literal decides, provided no earlier prototype's Python constructor accepts a non-XSD form -/
+theorem atomicLoop_union : ∀ {ms : List SType} {bs : List B}, builtinMembers ms = some bs →
+    ∀ (s : String), (splitWs s).length ≤ 1 → (∀ b ∈ bs, pyOnly b s = false) →
+    ∀ (vs : List Atom) (failed : Bool), decodeFirst ms s = some vs →
+      atomicLoop false s bs [] failed = .ok vs
+  | [], _, _, _, _, _, _, _, h => by simp [decodeFirst] at h
+  | .builtin b :: ms, bs, hm, s, h1, hpo, vs, failed, h => by
+    simp only [builtinMembers, Option.map_eq_some_iff] at hm
+    obtain ⟨bs', hb, rfl⟩ := hm
+    simp only [decodeFirst, decode] at h
+    cases hx : xsdLex b (normalize b s) with
+    | some a =>
+      rw [hx] at h
+      simp only [Option.map_some, Option.some.injEq] at h
+      subst h
+      have hpy := pyDecode_of_xsdLex b s h1 a hx
+      simp [atomicLoop, tryProto, hpy]
+    | none =>
+      rw [hx] at h
+      simp only [Option.map_none] at h
+      have hpn : pyDecode b s = none := by
+        have := hpo b List.mem_cons_self
+        simp only [pyOnly, hx, Option.isNone_none, Bool.and_true] at this
+        cases hp : pyDecode b s with
+        | none => rfl
+        | some v => rw [hp] at this; simp at this
+      simp only [atomicLoop, tryProto, hpn, Bool.false_eq_true, if_false]
+      exact atomicLoop_union hb s h1 (fun b' hb' => hpo b' (List.mem_cons_of_mem _ hb')) vs true h
+  | .restr _ _ _ :: _, _, hm, _, _, _, _, _, _ => by simp [builtinMembers] at hm
+  | .list _ _ :: _, _, hm, _, _, _, _, _, _ => by simp [builtinMembers] at hm
+  | .union _ _ :: _, _, hm, _, _, _, _, _, _ => by simp [builtinMembers] at hm
+
+/-- **typed value = specification value, unions of builtins** — PARTIAL (F20i).
+For a union (named or not) whose members are builtins, and a one-token text that no prototype's
+Python constructor accepts outside the XSD lexical space (`pyOnlyLexical = false`): the value in
+the FIRST member type, in declaration order, in which the literal is valid is exactly what
+`get_atomic_sequence` yields.  Without the hypothesis the statement is false
+(`typed_value_union_python_lexical`). -/
+theorem typed_value_eq_spec_union_partial (n : Option String) (ms : List SType) (bs : List B)
+    (hm : builtinMembers ms = some bs) (s : String) (h1 : (splitWs s).length ≤ 1)
+    (hpo : pyOnlyLexical (.union n ms) s = false) (vs : List Atom)
+    (h : decode (.union n ms) s = some vs) : atomicSequence (.union n ms) s = .ok vs := by
+  have hprotos : (SType.union n ms).protos = bs := by
+    simp [SType.protos, SType.iterValues, iterValuesL_builtins hm]
+  simp only [decode] at h
+  simp only [pyOnlyLexical, hprotos, SType.isList, Bool.false_eq_true, if_false, List.any_cons,
+    List.any_nil, Bool.or_false, List.any_eq_false] at hpo
+  simp only [atomicSequence, hprotos, SType.isList]
+  exact atomicLoop_union hm s h1 (fun b hb => by simpa using hpo b hb) vs false h
+
+/-- F20i, kernel-checked: `1e5` in `union(xs:decimal, xs:string)` -/
+theorem typed_value_union_python_lexical :
+    let u : SType := .union none [.builtin .decimal, .builtin .string]
+    atomicSequence u "1e5" = .ok [⟨.decimal, "py:1e5"⟩] ∧ decode u "1e5" = some [⟨.string, "1e5"⟩] ∧
+    pyOnlyLexical u "1e5" = true := by decide
+
+/-- TEST: the hypotheses of the value-level theorems hold on non-trivial inputs -/
 example : decode (.restr (some "d") (.builtin .decimal) {}) " +01.50 " = some [⟨.decimal, "1.5"⟩] ∧
-    (splitWs " +01.50 ").length ≤ 1 := by decide
+    (splitWs " +01.50 ").length ≤ 1 ∧
+    decode (.list none (.builtin .unsignedByte)) " 1  255\n7 " = some [⟨.unsignedByte, "1"⟩, ⟨.unsignedByte, "255"⟩, ⟨.unsignedByte, "7"⟩] ∧
+    builtinMembers [.builtin .byte, .builtin .boolean, .builtin .token] = some [.byte, .boolean, .token] ∧
+    pyOnlyLexical (.union none [.builtin .byte, .builtin .boolean, .builtin .token]) " 300 " = false ∧
+    decode (.union none [.builtin .byte, .builtin .boolean, .builtin .token]) " 300 " = some [⟨.token, "300"⟩] := by
+  decide
 
 /-- **`instance of` is closed under base types** (`element(*, T)` / `attribute(*, T)` for the
 declared type and all its base types): an atom that is an instance of `b` is an instance of every
@@ -430,11 +594,6 @@ type `b` is derived from. -/
 theorem base_types_match (a : Atom) (b c : B) (h : a.instanceOf b = true) (hd : b.derives c = true) :
     a.instanceOf c = true :=
   derives_trans a.cls b c h hd
-
-/-- TEST: hypotheses of `typed_value_instance_of_declared_partial` are satisfiable non-trivially -/
-example : atomicBase? (.restr none (.builtin .decimal) {}) = some .decimal ∧
-    derivedViaPrimitive (.restr none (.builtin .decimal) {}) = false ∧
-    atomicSequence (.restr none (.builtin .decimal) {}) " 1.50 " = .ok [⟨.decimal, "1.5"⟩] := by decide
 
 /-! ## node selection -/
 
